@@ -705,6 +705,7 @@ def _run_case(idx, rng, tier, wd):
                      'statements': len(it_e), 'behaviour': d['status'],
                      'diff_head': [x for x in difflib.unified_diff(orig.splitlines(), fixed.splitlines(), lineterm='', n=0)
                                    if x[0] in '+-'][:8]}
+    res['sample']['loki'] = parlab.LAST_LOKI_FILE
     res['counters'] = dict(cnt)
     return res
 
